@@ -1,9 +1,77 @@
 import Okane.Drv.IOUtil
-/-! Driver commands for C14 (stub: replaced when the property's streams are built). -/
+import Okane.Model.Diag
+/-!
+Driver for C14.  Input lines (positions are byte offsets taken from the implementation's own error values):
+  `<id> bk <enc file text> <a>..<b> <kind> <spans>`   book-keeping error on the entry with span a..b of that file;
+        kind ∈ undeducible|assertion|zeroAmountWithExchange|zeroExchangeRate|exchangeWithAmountCommodity|other,
+        spans = tracked spans `a..b;c..d` in the order the error carries them, or `-`
+  `<id> syn <enc file text> <startPos> <errPos>`       parse error
+Output:
+  bk : `<id> ls=<line_start> len=<|text|> anns=<a..b;..> lines=<line of each annotation start;..> last=<line of the entry end> text=<enc>`
+  syn: `<id> ls=<line_start> span=<a>..<b> len=<|input|> line=<line shown for the error>`
+  or `<id> panic:<site>` / `<id> fuelOut`
+-/
 namespace Okane.Drv.C14
+open Okane Okane.Drv Okane.Diag
 
-def main (args : List String) : IO Unit := do
-  let _ := args
-  pure ()
+def parseRange (s : String) : Option Range :=
+  match s.splitOn ".." with
+  | [a, b] => do
+    let a ← a.toNat?; let b ← b.toNat?
+    pure ⟨a, b⟩
+  | _ => none
+
+def parseRanges (s : String) : Option (List Range) :=
+  if s == "-" then some [] else (s.splitOn ";").mapM parseRange
+
+def mkSpans (kind : String) (rs : List Range) : Option BkSpans :=
+  match kind, rs with
+  | "undeducible", [a, b] => some (.undeducible a b)
+  | "assertion", [a, b] => some (.assertion a b)
+  | "zeroAmountWithExchange", [a] => some (.zeroAmountWithExchange a)
+  | "zeroExchangeRate", [a] => some (.zeroExchangeRate a)
+  | "exchangeWithAmountCommodity", [a, b] => some (.exchangeWithAmountCommodity a b)
+  | "other", _ => some .other
+  | _, _ => none
+
+def showRanges (rs : List Range) : String :=
+  if rs.isEmpty then "-" else ";".intercalate (rs.map fun r => s!"{r.start}..{r.stop}")
+
+def bytesToString (bs : Bytes) : String :=
+  match String.fromUTF8? ⟨bs.toArray⟩ with
+  | some s => s
+  | none => "<invalid utf-8>"
+
+def showOutcome {α} (id : String) (o : Outcome Unit α) (f : α → String) : String :=
+  match o with
+  | .ok a => f a
+  | .err _ => s!"{id} err"
+  | .panic s => s!"{id} panic:{Sexp.encode s}"
+  | .fuelOut => s!"{id} fuelOut"
+
+def step (line : String) : String :=
+  match words line with
+  | [id, "bk", text, span, kind, spans] =>
+    match Sexp.decode text, parseRange span, (parseRanges spans).bind (mkSpans kind) with
+    | some t, some sp, some e =>
+      let bytes := t.toUTF8.toList
+      let pctx : PCtx := ⟨bytes, sp⟩
+      showOutcome id (ErrorContext.new "" pctx) fun ctx =>
+        showOutcome id (ctx.annotations e) fun anns =>
+          let lines := anns.map fun r => snippetLine ctx.lineStart ctx.text r.start
+          let last := snippetLine ctx.lineStart ctx.text ctx.text.length
+          let ls := ";".intercalate (lines.map toString)
+          s!"{id} ls={ctx.lineStart} len={ctx.text.length} anns={showRanges anns} lines={if ls.isEmpty then "-" else ls} last={last} text={Sexp.encode (bytesToString ctx.text)}"
+    | _, _, _ => s!"{id} bad-case"
+  | [id, "syn", text, sp, ep] =>
+    match Sexp.decode text, sp.toNat?, ep.toNat? with
+    | some t, some startPos, some errPos =>
+      let bytes := t.toUTF8.toList
+      showOutcome id (parseErrorNew (parseErrorFuel bytes) bytes startPos errPos) fun pe =>
+        s!"{id} ls={pe.lineStart} span={pe.errorSpan.start}..{pe.errorSpan.stop} len={pe.input.length} line={snippetLine pe.lineStart pe.input pe.errorSpan.start}"
+    | _, _, _ => s!"{id} bad-case"
+  | _ => "bad-case"
+
+def main (_args : List String) : IO Unit := forEachLine step
 
 end Okane.Drv.C14
